@@ -188,6 +188,8 @@ type zzTx struct {
 	chain    string
 	mutate   int // != 0: alter one signed field after signing (C03)
 	forceSig []byte // != nil: carry this signature instead of a fresh one (C03: signature lifted from another transaction)
+	time     int64  // Trx.Time (0: the fixed value 1)
+	chainEmpty bool // sign for the chain id "" (chain == "" means this chain)
 }
 
 func (n *zzNode) toAddr(i int) types.Address {
@@ -212,10 +214,14 @@ func (n *zzNode) encodeTo(t *zzTx, to types.Address) []byte {
 	if to == nil || (t.typ == ctrlertypes.TRX_CONTRACT && t.to == -1) {
 		to = n.toAddr(t.to)
 	}
-	tx := &ctrlertypes.Trx{Version: 1, Time: 1, Nonce: t.nonce, From: zzAddr(t.from), To: to, Amount: t.amount,
+	txTime := int64(1)
+	if t.time != 0 {
+		txTime = t.time
+	}
+	tx := &ctrlertypes.Trx{Version: 1, Time: txTime, Nonce: t.nonce, From: zzAddr(t.from), To: to, Amount: t.amount,
 		Gas: t.gas, GasPrice: t.gasPrice, Type: t.typ, Payload: t.payload}
 	chain := t.chain
-	if chain == "" {
+	if chain == "" && !t.chainEmpty {
 		chain = zzChainID
 	}
 	pre, xerr := ctrlertypes.PreImageToSignTrxRLP(tx, chain)
